@@ -128,12 +128,16 @@ CLAIMED = {
              "into two with the same tags whose values add up, and renumbering system ids leave energy_performance "
              "unchanged (same error, or the same carrier balances and factors) for every component list; what "
              "normalisation gives a system (completion, auxiliary assignment) does not depend on the order in which the "
-             "hash set of ids is iterated, and the final order is fixed by a stable sort. Partial by nature: text-level "
-             "rewritings (comments, blank lines, header, BOM, CRLF, white space, explicit/omitted id 0) and repeated "
-             "evaluation in the same or another process are decided by the differential run on the implementation "
-             "(every base file rewritten and re-evaluated, all annual fields, outcome kinds and the DHW fraction compared).",
+             "hash set of ids is iterated, and the final order is fixed by a stable sort. Text level, over the reader model of "
+             "Model/Parse.v (tied to FromStr by the exact correspondence of C16): the reader sees the text only through its "
+             "trimmed lines (C10_text_is_read_by_trimmed_lines), so white space around any line (C10_text_whitespace), "
+             "blank / comment / header lines anywhere (C10_text_ignored_line), a byte order mark (C10_text_bom) and a CR "
+             "before the LF (C10_text_crlf) are not seen. PARTIAL: the explicit / omitted id 0 and repeated evaluation in "
+             "the same or another process (bit-identical results required) are decided by the differential run on the "
+             "implementation (every base file rewritten and re-evaluated, all annual fields, outcome kinds and the DHW "
+             "fraction compared).",
         design_ref="DESIGN.md §6 C10",
-        note="Trusted: Coq kernel + vm_compute; model tied by differential testing. The f32 summation order (hash-map iteration) is not modelled; text-level layer not yet modelled in Coq.",
+        note="Trusted: Coq kernel + vm_compute; model tied by differential testing. The f32 summation order (hash-map iteration) is not modelled: the repeat-run check observes the implementation.",
         technique="Coq proof (tag-predicate equivalence of component lists) + metamorphic differential run on the implementation"),
     "C11": dict(
         text="Machine-checked theorem C11_energy: for every k > 0 and every component list whose values and scaled "
@@ -264,12 +268,14 @@ CLAIMED = {
              "with non-negative grid and cogeneration factors and k_exp in [0,1], the non-renewable primary energy and the "
              "emissions of the electricity carrier do not grow, in step A and in step B; every regime of a time step is "
              "covered, including the switch of the priority branch caused by the new component (PvFacts.step_prio / "
-             "step_pv_only / step_new_pv). C14_rer_with_renewable_cogeneration_refuted: the RER statement is false with "
-             "renewable-fuelled cogeneration (known finding). The tie to the code: model/implementation correspondence on "
+             "step_pv_only / step_new_pv). C14_building assembles this over the carriers: for every component set, every "
+             "regulatory factor set (reg_set), k_exp in [0,1] and area, the building's non-renewable primary energy, "
+             "emissions (steps A and B) and grid-delivered energy do not grow. RER at k_exp = 0: "
+             "C14_ren_never_shrinks_without_cogeneration + C14_ratio; C14_rer_with_renewable_cogeneration_refuted: the RER "
+             "statement is false with renewable-fuelled cogeneration (known finding). The tie to the code: model/implementation correspondence on "
              "the generated bases, and the property itself evaluated on implementation outputs of (building, building + "
              "extra EL_INSITU line) pairs: four regulatory locations, k_exp in [0,1], with and without load matching. "
-             "PARTIAL: the load matching mode, the RER statement and the sum over carriers (the other carriers do not see "
-             "the new component) are decided by the differential run only.",
+             "PARTIAL: the load matching mode is decided by the differential run only.",
         design_ref="DESIGN.md §6 C14",
         note="Trusted: Coq kernel + vm_compute; closed form of the weighted energy (RerFacts.carrier_closed) under 'regular' factor sets; model tied by differential testing.",
         technique="Coq proof (per-step case analysis, annual sums, closed form of weighted energy) + refutation witness + correspondence + metamorphic oracle"),
